@@ -7754,6 +7754,10 @@ void SoPlexBase<R>::_changeRowReal(int i, const LPRowBase<R>& lprow)
                                SPxSolverBase<R>::ON_LOWER : SPxSolverBase<R>::ZERO;
    }
 
+   // an equation that became a range (or a bound that became infinite) needs another nonbasic status
+   if(!_isRealLPLoaded && _hasBasis)
+      _fitStoredRowStatus(i);
+
    _rationalLUSolver.clear();
 }
 
@@ -7780,6 +7784,13 @@ void SoPlexBase<R>::_changeLhsReal(const VectorBase<R>& lhs)
       }
    }
 
+   // an equation that became a range (or a bound that became infinite) needs another nonbasic status
+   if(!_isRealLPLoaded && _hasBasis)
+   {
+      for(int k = numRows() - 1; k >= 0; k--)
+         _fitStoredRowStatus(k);
+   }
+
    _rationalLUSolver.clear();
 }
 
@@ -7800,6 +7811,10 @@ void SoPlexBase<R>::_changeLhsReal(int i, const R& lhs)
            && lhs <= -realParam(SoPlexBase<R>::INFTY))
       _basisStatusRows[i] = (rhsReal(i) < realParam(SoPlexBase<R>::INFTY)) ? SPxSolverBase<R>::ON_UPPER :
                             SPxSolverBase<R>::ZERO;
+
+   // an equation that became a range (or a bound that became infinite) needs another nonbasic status
+   if(!_isRealLPLoaded && _hasBasis)
+      _fitStoredRowStatus(i);
 
    _rationalLUSolver.clear();
 }
@@ -7829,6 +7844,13 @@ void SoPlexBase<R>::_changeRhsReal(const VectorBase<R>& rhs)
       }
    }
 
+   // an equation that became a range (or a bound that became infinite) needs another nonbasic status
+   if(!_isRealLPLoaded && _hasBasis)
+   {
+      for(int k = numRows() - 1; k >= 0; k--)
+         _fitStoredRowStatus(k);
+   }
+
    _rationalLUSolver.clear();
 }
 
@@ -7851,6 +7873,10 @@ void SoPlexBase<R>::_changeRhsReal(int i, const R& rhs)
            && rhs >= realParam(SoPlexBase<R>::INFTY))
       _basisStatusRows[i] = (lhsReal(i) > -realParam(SoPlexBase<R>::INFTY)) ? SPxSolverBase<R>::ON_LOWER :
                             SPxSolverBase<R>::ZERO;
+
+   // an equation that became a range (or a bound that became infinite) needs another nonbasic status
+   if(!_isRealLPLoaded && _hasBasis)
+      _fitStoredRowStatus(i);
 
    _rationalLUSolver.clear();
 }
@@ -7884,6 +7910,13 @@ void SoPlexBase<R>::_changeRangeReal(const VectorBase<R>& lhs, const VectorBase<
       }
    }
 
+   // an equation that became a range (or a bound that became infinite) needs another nonbasic status
+   if(!_isRealLPLoaded && _hasBasis)
+   {
+      for(int k = numRows() - 1; k >= 0; k--)
+         _fitStoredRowStatus(k);
+   }
+
    _rationalLUSolver.clear();
 }
 
@@ -7911,6 +7944,10 @@ void SoPlexBase<R>::_changeRangeReal(int i, const R& lhs, const R& rhs)
          _basisStatusRows[i] = (lhs > -realParam(SoPlexBase<R>::INFTY)) ? SPxSolverBase<R>::ON_LOWER :
                                SPxSolverBase<R>::ZERO;
    }
+
+   // an equation that became a range (or a bound that became infinite) needs another nonbasic status
+   if(!_isRealLPLoaded && _hasBasis)
+      _fitStoredRowStatus(i);
 
    _rationalLUSolver.clear();
 }
@@ -7944,6 +7981,10 @@ void SoPlexBase<R>::_changeColReal(int i, const LPColReal& lpcol)
                                SPxSolverBase<R>::ON_LOWER : SPxSolverBase<R>::ZERO;
    }
 
+   // an equation that became a range (or a bound that became infinite) needs another nonbasic status
+   if(!_isRealLPLoaded && _hasBasis)
+      _fitStoredColStatus(i);
+
    _rationalLUSolver.clear();
 }
 
@@ -7973,6 +8014,13 @@ void SoPlexBase<R>::_changeLowerReal(const VectorBase<R>& lower)
       }
    }
 
+   // an equation that became a range (or a bound that became infinite) needs another nonbasic status
+   if(!_isRealLPLoaded && _hasBasis)
+   {
+      for(int k = numCols() - 1; k >= 0; k--)
+         _fitStoredColStatus(k);
+   }
+
    _rationalLUSolver.clear();
 }
 
@@ -7995,6 +8043,10 @@ void SoPlexBase<R>::_changeLowerReal(int i, const R& lower)
            && lower <= -realParam(SoPlexBase<R>::INFTY))
       _basisStatusCols[i] = (upperReal(i) < realParam(SoPlexBase<R>::INFTY)) ?
                             SPxSolverBase<R>::ON_UPPER : SPxSolverBase<R>::ZERO;
+
+   // an equation that became a range (or a bound that became infinite) needs another nonbasic status
+   if(!_isRealLPLoaded && _hasBasis)
+      _fitStoredColStatus(i);
 
    _rationalLUSolver.clear();
 }
@@ -8024,6 +8076,13 @@ void SoPlexBase<R>::_changeUpperReal(const VectorBase<R>& upper)
       }
    }
 
+   // an equation that became a range (or a bound that became infinite) needs another nonbasic status
+   if(!_isRealLPLoaded && _hasBasis)
+   {
+      for(int k = numCols() - 1; k >= 0; k--)
+         _fitStoredColStatus(k);
+   }
+
    _rationalLUSolver.clear();
 }
 
@@ -8046,6 +8105,10 @@ void SoPlexBase<R>::_changeUpperReal(int i, const R& upper)
            && upper >= realParam(SoPlexBase<R>::INFTY))
       _basisStatusCols[i] = (lowerReal(i) > -realParam(SoPlexBase<R>::INFTY)) ?
                             SPxSolverBase<R>::ON_LOWER : SPxSolverBase<R>::ZERO;
+
+   // an equation that became a range (or a bound that became infinite) needs another nonbasic status
+   if(!_isRealLPLoaded && _hasBasis)
+      _fitStoredColStatus(i);
 
    _rationalLUSolver.clear();
 }
@@ -8080,6 +8143,13 @@ void SoPlexBase<R>::_changeBoundsReal(const VectorBase<R>& lower, const VectorBa
       }
    }
 
+   // an equation that became a range (or a bound that became infinite) needs another nonbasic status
+   if(!_isRealLPLoaded && _hasBasis)
+   {
+      for(int k = numCols() - 1; k >= 0; k--)
+         _fitStoredColStatus(k);
+   }
+
    _rationalLUSolver.clear();
 }
 
@@ -8109,7 +8179,54 @@ void SoPlexBase<R>::_changeBoundsReal(int i, const R& lower, const R& upper)
                                SPxSolverBase<R>::ZERO;
    }
 
+   // an equation that became a range (or a bound that became infinite) needs another nonbasic status
+   if(!_isRealLPLoaded && _hasBasis)
+      _fitStoredColStatus(i);
+
    _rationalLUSolver.clear();
+}
+
+
+
+/// makes the stored (not loaded) basis status of row \p i fit the current sides of the row
+template <class R>
+void SoPlexBase<R>::_fitStoredRowStatus(int i)
+{
+   typename SPxSolverBase<R>::VarStatus& stat = _basisStatusRows[i];
+
+   if(stat == SPxSolverBase<R>::BASIC)
+      return;
+
+   const bool hasLhs = lhsReal(i) > -realParam(SoPlexBase<R>::INFTY);
+   const bool hasRhs = rhsReal(i) < realParam(SoPlexBase<R>::INFTY);
+
+   if((stat == SPxSolverBase<R>::FIXED && !(hasLhs && hasRhs && lhsReal(i) == rhsReal(i)))
+         || (stat == SPxSolverBase<R>::ON_LOWER && !hasLhs)
+         || (stat == SPxSolverBase<R>::ON_UPPER && !hasRhs)
+         || (stat == SPxSolverBase<R>::ZERO && (hasLhs || hasRhs)))
+      stat = hasLhs ? SPxSolverBase<R>::ON_LOWER : (hasRhs ? SPxSolverBase<R>::ON_UPPER : SPxSolverBase<R>::ZERO);
+}
+
+
+
+/// makes the stored (not loaded) basis status of column \p i fit the current bounds of the column
+template <class R>
+void SoPlexBase<R>::_fitStoredColStatus(int i)
+{
+   typename SPxSolverBase<R>::VarStatus& stat = _basisStatusCols[i];
+
+   if(stat == SPxSolverBase<R>::BASIC)
+      return;
+
+   const bool hasLower = lowerReal(i) > -realParam(SoPlexBase<R>::INFTY);
+   const bool hasUpper = upperReal(i) < realParam(SoPlexBase<R>::INFTY);
+
+   if((stat == SPxSolverBase<R>::FIXED && !(hasLower && hasUpper && lowerReal(i) == upperReal(i)))
+         || (stat == SPxSolverBase<R>::ON_LOWER && !hasLower)
+         || (stat == SPxSolverBase<R>::ON_UPPER && !hasUpper)
+         || (stat == SPxSolverBase<R>::ZERO && (hasLower || hasUpper)))
+      stat = hasLower ? SPxSolverBase<R>::ON_LOWER : (hasUpper ? SPxSolverBase<R>::ON_UPPER :
+             SPxSolverBase<R>::ZERO);
 }
 
 
